@@ -418,6 +418,8 @@ def valid_default(prog):
                 return False  # remote continuation has a fixed type here
             if a.get("rf", 0) and (a.get("typed", 0) or a.get("style", 0) in REMOTE_STYLES):
                 return False
+            if a.get("kf", 0) and (a.get("typed", 0) or a.get("style", 0) in REMOTE_STYLES + REENTER_STYLES + (4,)):
+                return False
             if a.get("style", 0) in REENTER_STYLES and any(
                 a.get(k, 0) for k in ("typed", "at", "sf", "ef", "xf", "rf")
             ):
@@ -431,6 +433,8 @@ def valid_default(prog):
                 return False
             if a.get("rf", 0) and a.get("api", 0) in (5, 9):
                 return False  # write_traceback takes no fields
+            if a.get("kf", 0) and a.get("api", 0) in (4, 5, 6, 7, 9):
+                return False
     return True
 
 
@@ -541,6 +545,9 @@ class Interp(object):
         fs = dict(ALL_FS[a.get("fs", 0)])
         fs["serial"] = self._next_serial()
         cur = current_action()
+        if a.get("kf", 0):
+            # "kf": an application field that is named like one of the keys that tell actions from messages
+            fs["action_status"] = "running"
         rfs = dict(fs)  # what the reference expects
         if a.get("rf", 0):
             fs.update(RESERVED_MSG)
@@ -661,6 +668,9 @@ class Interp(object):
             atype = ATYPES[a.get("at", 0)]
             start_ref, start_args = dict(sf), dict(sf)
             end_ref, end_args = dict(ef), dict(ef)
+        if a.get("kf", 0):
+            for d in (start_ref, start_args, end_ref, end_args):
+                d["message_type"] = "user-field"
         if a.get("rf", 0):
             start_args.update(RESERVED_ACT)
             end_args.update(RESERVED_ACT)
@@ -1042,6 +1052,19 @@ def parse_lines(raw):
     lines = raw.split(b"\n")
     assert lines[-1] == b"", "file does not end with newline"
     return [json.loads(l.decode("utf-8")) for l in lines[:-1]]
+
+
+def order_tasks(tasks, dicts):
+    """Parsed tasks in the order in which the program began them: by the earliest timestamp among the
+    task's messages (the clock seam is strictly increasing), ties by first appearance in ``dicts``.
+    Nothing here depends on what the task uuids look like."""
+    first = {}
+    for i, m in enumerate(dicts):
+        u = m.get("task_uuid")
+        k = (m.get("timestamp", 0), i)
+        if u not in first or k < first[u]:
+            first[u] = k
+    return sorted(tasks, key=lambda t: first.get(t.root().task_uuid, (float("inf"), 0)))
 
 
 def parse_forest(dicts):
